@@ -197,15 +197,31 @@ async fn restart_and_compare<S: Storage>(
         // stopped ("converges with its peers as in C01": repair traffic for writes it has
         // missed is decided by will_apply): between requests the rebuilt set holds the same
         // rows as the old one, so every pool operation the old set would apply, the
-        // rebuilt one must apply too
+        // rebuilt one must apply too. C01 speaks about operations within one forgiveness
+        // period of each other, so only probes within one hour of everything the node has
+        // seen count (a restart may legitimately forget or tighten what lies further back).
         if let Some(pre) = pre_sets.and_then(|p| p.get(ks_name.as_str())).and_then(|b| decode_set(b).ok()) {
-            if pre.verif_snapshot().entries == snap.entries && pre.verif_snapshot().dead == snap.dead {
+            let pre_snap = pre.verif_snapshot();
+            let seen: Vec<u64> = pre_snap
+                .entries
+                .iter()
+                .chain(pre_snap.dead.iter())
+                .map(|(_, t)| t.seconds())
+                .chain(pre_snap.max_stamps.iter().flatten().map(|(_, t)| t.seconds()))
+                .collect();
+            if pre_snap.entries == snap.entries && pre_snap.dead == snap.dead {
                 for op in pool {
+                    let lo = seen.iter().copied().chain([op.ts.seconds()]).min().unwrap_or(0);
+                    let hi = seen.iter().copied().chain([op.ts.seconds()]).max().unwrap_or(0);
+                    if hi - lo >= 3590 {
+                        st.inc("acceptance_probes_outside_one_forgiveness_period");
+                        continue;
+                    }
                     st.inc("acceptance_probes");
                     if pre.will_apply(op.key, op.ts) && !set.will_apply(op.key, op.ts) {
                         st.violation(
                             &format!("restart-made-the-node-refuse-an-operation/{crash_kind}"),
-                            || format!("keyspace {ks_name:?}: before the restart the node would apply {} key {} at {}, after rebuilding from storage it refuses it (cut-offs before {:?}, after {:?})", if op.del { "delete" } else { "insert" }, op.key, op.ts, pre.verif_snapshot().safe_stamps, snap.safe_stamps),
+                            || format!("keyspace {ks_name:?}: before the restart the node would apply {} key {} at {}, after rebuilding from storage it refuses it (cut-offs before {:?}, after {:?})", if op.del { "delete" } else { "insert" }, op.key, op.ts, pre_snap.safe_stamps, snap.safe_stamps),
                             case,
                         );
                         break;
